@@ -429,3 +429,7 @@ w("C10", "polars coercible mask ignores the input's nulls again", "pandera/engin
 w("C10", "polars coercible mask taken from the cast frame alone (original form)", "pandera/engines/polars_engine.py",
   "    coercible = data_container.lazyframe.select(\n        pl.col(key).is_null()\n        | pl.col(key).cast(type_, strict=False).is_not_null()\n    )\n",
   "    coercible = data_container.lazyframe.cast(\n        {key: type_}, strict=False\n    ).select(pl.col(key).is_not_null())\n")
+w("C05", "hypothesis backend writes the groups on the shared check again", BP + "hypotheses.py",
+  "            if self.check.groupby is None:\n                return super().preprocess(check_obj, key)\n", "            self.check.groups = self.check.samples\n            if self.check.groupby is None:\n                return super().preprocess(check_obj, key)\n")
+w("C05", "check backend caches on the shared check", BP + "checks.py",
+  "        if self.check.element_wise:\n            return check_obj.map(self.check_fn)\n", "        if self.check.element_wise:\n            self.check.statistics[\"_seen\"] = len(check_obj)\n            return check_obj.map(self.check_fn)\n")
